@@ -208,5 +208,16 @@ def raw_scenario(W, entry, msg, sender, funds=(), querier=None, steps=None):
         scn['info'] = info
         scn['msg'] = Tm.value(msg)
     T.exprs.update(Tm.exprs)
-    W.ctx.set_scenario(T, scn)
+
+    def dynamic(st):
+        """storage entries created lazily on this path (initial versions)"""
+        from smir import tojson as tj
+        RT2 = rawstore.RawTemplate(W.I, W.contract, W.crate)
+        RT2.T.n = 5000
+
+        class _S:
+            entries = [ev[5] for ev in st.log if ev[0] == 'lazy' and ev[1] == W.crate]
+        RT2.add_store(_S)
+        return RT2.items, RT2.T.exprs
+    W.ctx.set_scenario(T, scn, dynamic if W.st.stores[W.crate].open_default else None)
     return scn
